@@ -120,18 +120,31 @@ class SymArr(np.ndarray):
         return SymDType('c' if cplx else 'f')
 
     def astype(self, dtype, *a, **kw):
+        # NumPy: a cast to a real type drops imaginary parts (ComplexWarning); a cast returns a new array of that type
+        def to_real():
+            out = _map(lambda e: e.real if isinstance(e, (SymC, complex, np.complexfloating)) else e, np.asarray(self).view(SymArr))
+            out = np.asarray(out).view(SymArr)
+            out._real_only = True
+            return out
+
+        def to_complex():
+            out = np.array(np.asarray(self), dtype=object, copy=True).view(SymArr)
+            out._real_only = False
+            return out
         if isinstance(dtype, SymDType):
-            if dtype.sym_kind != 'i':
-                return self
+            if dtype.sym_kind == 'f':
+                return to_real()
+            if dtype.sym_kind == 'c':
+                return to_complex()
             out = _map(lambda e: e.astype(int) if _is_sym(e) else int(e), np.asarray(self).view(SymArr))
             out._int_only = True
             return out
         if dtype is object or dtype == object:
             return self
         if dtype in (complex, np.complex128, np.complex64):
-            return self
+            return to_complex()
         if dtype in (float, np.float64, np.float32):
-            return self
+            return to_real()
         out = np.empty(self.shape, dtype=object)
         for idx in np.ndindex(self.shape):
             e = self[idx] if self.ndim else self.item()
@@ -197,6 +210,9 @@ class SymArr(np.ndarray):
         if self._int_only and not _int_typed(o):
             # NumPy: UFuncTypeError, cannot cast the float64 result to the integer output under 'same_kind'
             raise TypeError("Cannot cast ufunc output from dtype('float64') to dtype('int64') with casting rule 'same_kind'")
+        if self._real_only and _has_complex(o):
+            # NumPy: UFuncTypeError, the complex result cannot be cast to the float output under 'same_kind'
+            raise TypeError("Cannot cast ufunc output from dtype('complex128') to dtype('float64') with casting rule 'same_kind'")
         if _is_sym(o):
             np.ndarray.__setitem__(self, Ellipsis, f(np.asarray(self).view(SymArr), o))
             return self
@@ -830,6 +846,14 @@ class NPProxy:
         rest = [a for a, k in zip(args, kinds) if k is None]
         base = np.result_type(*rest) if rest else np.dtype(float)
         return SymDType('c' if ('c' in kinds or base.kind == 'c') else 'f')
+
+
+def _has_complex(o):
+    if isinstance(o, np.ndarray):
+        if o.dtype != np.dtype(object):
+            return o.dtype.kind == 'c'
+        return builtins.any(isinstance(e, (SymC, complex, np.complexfloating)) for e in o.flat)
+    return isinstance(o, (SymC, complex, np.complexfloating))
 
 
 def _int_typed(o):
